@@ -122,6 +122,14 @@ def _never_none(prog: Program, fi: FunctionInfo, name: str) -> str | None:
     return None
 
 
+
+def _is_catalog(recv: ast.AST) -> bool:
+    """The receiver of a gettext-family call is the message catalog: a local/parameter called translations, or the result of the
+    resolver (`self._resolve_translations(context)` / `self.resolve_translations(context)`) used directly."""
+    if isinstance(recv, ast.Name):
+        return recv.id == "translations"
+    return isinstance(recv, ast.Call) and isinstance(recv.func, ast.Attribute) and recv.func.attr.endswith("resolve_translations")
+
 def run(prog: Program, res: Result) -> None:  # noqa: PLR0912, PLR0915
     res.explanation = (
         "R1 checks the shape of extract_from_template's visitors. R2 computes, for every translations.<family>() call in a "
@@ -265,7 +273,7 @@ def run(prog: Program, res: Result) -> None:  # noqa: PLR0912, PLR0915
     for sel in selectors:
         res.analysed_functions.add(sel.fid)
         for c in ast.walk(sel.node):
-            if not (isinstance(c, ast.Call) and isinstance(c.func, ast.Attribute) and c.func.attr in FAMILY and norm(c.func.value) == "translations"):
+            if not (isinstance(c, ast.Call) and isinstance(c.func, ast.Attribute) and c.func.attr in FAMILY and _is_catalog(c.func.value)):
                 continue
             n_calls += 1
             fam = c.func.attr
@@ -315,7 +323,7 @@ def run(prog: Program, res: Result) -> None:  # noqa: PLR0912, PLR0915
             call, msg = c.methods.get("__call__"), c.methods.get("message")
             if call is None or msg is None:
                 continue
-            called = {x.func.attr for x in ast.walk(call.node) if isinstance(x, ast.Call) and isinstance(x.func, ast.Attribute) and x.func.attr in FAMILY and norm(x.func.value) == "translations"}
+            called = {x.func.attr for x in ast.walk(call.node) if isinstance(x, ast.Call) and isinstance(x.func, ast.Attribute) and x.func.attr in FAMILY and _is_catalog(x.func.value)}
             fn_ok = any(isinstance(k, ast.keyword) and k.arg == "funcname" and norm(k.value) in ("self.name", repr(fam)) for k in ast.walk(msg.node))
             what = f"{c.name}: run time calls translations.{fam} and message() reports funcname {fam}"
             if called == {fam} and fn_ok:
